@@ -36,6 +36,7 @@ class _State:
         self.drawn = {}
         self.assumed_plain = []
         self.ufs = {}
+        self.hints = []
 
 
 ST = _State()
@@ -62,6 +63,7 @@ def reset(mode, values=None, seed=0):
     ST.vars = {}
     ST.drawn = {}
     ST.ufs = {}
+    ST.hints = []
 
 
 def mode():
@@ -92,6 +94,8 @@ def _parse_value(v):
 def _draw_real(lo, hi, default):
     if default is not None:
         return default(ST.rng) if callable(default) else default
+    lo = float(Fraction(lo)) if isinstance(lo, str) else lo
+    hi = float(Fraction(hi)) if isinstance(hi, str) else hi
     lo = -2.0 if lo is None else lo
     hi = (lo + 4.0) if hi is None else hi
     if lo > 0 and hi / lo > 100:
@@ -195,16 +199,24 @@ def const(v):
     return float(Fraction(v)) if isinstance(v, str) else float(v)
 
 
-def fresh(prefix, n=None):
-    """fresh symbolic reals (sym mode only) -- for contract stubs"""
+def fresh(prefix, n=None, hint=None):
+    """fresh symbolic reals (sym mode only) -- for contract stubs.
+    hint: a value used ONLY when searching a witness that the path condition is satisfiable
+    (e.g. 1 for an arbitrary positive weight, which makes the remaining constraints linear)"""
     assert ST.mode == "sym"
     c = _core()
     z3 = _z3()
     if n is None:
-        return c.SymReal(z3.FreshReal(prefix))
+        v = z3.FreshReal(prefix)
+        if hint is not None:
+            ST.hints.append(v == c.rat(hint))
+        return c.SymReal(v)
     a = np.empty(n, dtype=object)
     for i in range(n):
-        a[i] = c.SymReal(z3.FreshReal(prefix))
+        v = z3.FreshReal(prefix)
+        if hint is not None:
+            ST.hints.append(v == c.rat(hint))
+        a[i] = c.SymReal(v)
     return a
 
 
